@@ -42,6 +42,10 @@ pub struct Inventory {
     /// token text of every item that is not an assertion item, in order (modules flattened with a
     /// `mod NAME {` / `}` marker)
     pub other_items: Vec<String>,
+    /// parallel to `other_items`: (kind = struct | union | impl | mod | other, name)
+    pub other_kinds: Vec<(String, String)>,
+    /// token text of the assertion items, parallel to `assert_items`
+    pub assert_texts: Vec<String>,
     /// duplicate definitions seen (name)
     pub duplicates: Vec<String>,
 }
@@ -157,15 +161,22 @@ impl Inventory {
     }
 
     fn walk(&mut self, items: &[syn::Item]) {
+        self.walk_in(items, "");
+    }
+
+    fn walk_in(&mut self, items: &[syn::Item], module: &str) {
         for it in items {
             match it {
                 syn::Item::Mod(m) => {
                     if let Some((_, items)) = &m.content {
                         self.other_items.push(format!("pub mod {} {{", m.ident));
-                        self.walk(items);
+                        self.other_kinds.push(("mod".into(), m.ident.to_string()));
+                        self.walk_in(items, &m.ident.to_string());
                         self.other_items.push("}".into());
+                        self.other_kinds.push(("mod".into(), String::new()));
                     } else {
                         self.other_items.push(it.to_token_stream().to_string());
+                        self.other_kinds.push(("other".into(), String::new()));
                     }
                     continue;
                 }
@@ -189,12 +200,31 @@ impl Inventory {
                     self.enums.insert(e.ident.to_string(), int.unwrap_or_else(|| "isize".into()));
                 }
                 syn::Item::Type(t) => {
-                    self.aliases.insert(t.ident.to_string(), (*t.ty).clone());
+                    if module.is_empty() || module == "root" {
+                        self.aliases.insert(t.ident.to_string(), (*t.ty).clone());
+                    } else {
+                        // `pub mod E { pub type Type = …; }` (module-consts enums)
+                        self.aliases.insert(format!("{module}::{}", t.ident), (*t.ty).clone());
+                    }
+                }
+                syn::Item::Use(u) => {
+                    // `pub use self::E as A;` (typedef of an enum)
+                    fn last(t: &syn::UseTree, path: &mut Vec<String>) -> Option<(String, String)> {
+                        match t {
+                            syn::UseTree::Path(p) => { path.push(p.ident.to_string()); last(&p.tree, path) }
+                            syn::UseTree::Rename(r) => Some((r.rename.to_string(), r.ident.to_string())),
+                            _ => None,
+                        }
+                    }
+                    if let Some((alias, target)) = last(&u.tree, &mut vec![]) {
+                        if let Ok(t) = syn::parse_str::<syn::Type>(&target) { self.aliases.insert(alias, t); }
+                    }
                 }
                 syn::Item::Const(c) if c.ident == "_" => {
                     if let syn::Expr::Block(b) = &*c.expr {
                         if let Some(a) = asserts_of_const_block(&b.block) {
                             self.assert_items.push(a);
+                            self.assert_texts.push(it.to_token_stream().to_string());
                             continue;
                         }
                     }
@@ -203,6 +233,7 @@ impl Inventory {
                     if let Some(a) = asserts_of_test_fn(f) {
                         if !a.is_empty() {
                             self.assert_items.push(a);
+                            self.assert_texts.push(it.to_token_stream().to_string());
                             continue;
                         }
                     }
@@ -210,6 +241,87 @@ impl Inventory {
                 _ => {}
             }
             self.other_items.push(it.to_token_stream().to_string());
+            self.other_kinds.push(match it {
+                syn::Item::Struct(s) => ("struct".into(), s.ident.to_string()),
+                syn::Item::Union(u) => ("union".into(), u.ident.to_string()),
+                syn::Item::Impl(i) => ("impl".into(), match &*i.self_ty { syn::Type::Path(p) => p.path.segments.last().map(|s| s.ident.to_string()).unwrap_or_default(), _ => String::new() }),
+                syn::Item::Type(t) => ("type".into(), t.ident.to_string()),
+                _ => ("other".into(), String::new()),
+            });
+        }
+    }
+
+    /// Source with type definitions only (no `impl`s, no assertion items), one item per line,
+    /// leaving out the aggregates named in `removed`.  Returns the text and, per line, the name of
+    /// the aggregate defined on it (empty otherwise).
+    pub fn types_source(&self, removed: &std::collections::BTreeSet<String>) -> (String, Vec<String>) {
+        let mut src = String::new();
+        let mut names = vec![];
+        for (t, (k, n)) in self.other_items.iter().zip(self.other_kinds.iter()) {
+            if k == "impl" && !n.starts_with("__") { continue; }
+            if (k == "struct" || k == "union" || k == "type") && removed.contains(n) { continue; }
+            src.push_str(t);
+            src.push('\n');
+            names.push(if k == "struct" || k == "union" { n.clone() } else { String::new() });
+        }
+        (src, names)
+    }
+
+    /// names of aggregates that (transitively, through field types) mention one of `roots`
+    pub fn dependents(&self, roots: &std::collections::BTreeSet<String>) -> std::collections::BTreeSet<String> {
+        let mut set = roots.clone();
+        loop {
+            let mut grew = false;
+            for (name, agg) in &self.aggs {
+                if set.contains(name) { continue; }
+                let txt: String = agg.fields.iter().map(|f| f.1.to_token_stream().to_string()).collect::<Vec<_>>().join(" ");
+                if txt.split(|c: char| !c.is_alphanumeric() && c != '_').any(|w| set.contains(w)) {
+                    set.insert(name.clone());
+                    grew = true;
+                }
+            }
+            // aliases to removed aggregates
+            for (name, t) in &self.aliases {
+                if set.contains(name) { continue; }
+                let txt = t.to_token_stream().to_string();
+                if txt.split(|c: char| !c.is_alphanumeric() && c != '_').any(|w| set.contains(w)) {
+                    set.insert(name.clone());
+                    grew = true;
+                }
+            }
+            if !grew { break; }
+        }
+        set
+    }
+
+    /// does the type transitively contain a `#[repr(align)]` aggregate (rustc's E0588 walk: through
+    /// fields of ADTs, arrays and generic arguments that are stored by value; `PhantomData` and
+    /// pointers stop it)?
+    pub fn contains_align(&self, ty: &syn::Type, depth: usize) -> bool {
+        if depth > 40 { return false; }
+        match ty {
+            syn::Type::Paren(p) => self.contains_align(&p.elem, depth + 1),
+            syn::Type::Group(g) => self.contains_align(&g.elem, depth + 1),
+            syn::Type::Array(a) => self.contains_align(&a.elem, depth + 1),
+            syn::Type::Path(p) => {
+                let seg = match p.path.segments.last() { Some(s) => s, None => return false };
+                let name = seg.ident.to_string();
+                if name == "PhantomData" || name == "__BindgenUnionField" || name == "__IncompleteArrayField" { return false; }
+                if name.starts_with("__BindgenOpaqueArray") && name.len() > "__BindgenOpaqueArray".len() { return true; }
+                let args: Vec<&syn::Type> = match &seg.arguments {
+                    syn::PathArguments::AngleBracketed(a) => a.args.iter().filter_map(|g| if let syn::GenericArgument::Type(t) = g { Some(t) } else { None }).collect(),
+                    _ => vec![],
+                };
+                if args.iter().any(|a| self.contains_align(a, depth + 1)) { return true; }
+                if let Some(a) = self.aggs.get(&name) {
+                    if a.align.is_some() { return true; }
+                    if a.generics.is_empty() { return a.fields.iter().any(|f| self.contains_align(&f.1, depth + 1)); }
+                    return false;
+                }
+                if let Some(t) = self.aliases.get(&name) { return self.contains_align(t, depth + 1); }
+                false
+            }
+            _ => false,
         }
     }
 }
@@ -294,6 +406,10 @@ impl<'a> Resolver<'a> {
                 };
                 if p.path.segments.len() == 1 {
                     if let Some(l) = subst.get(&name) { return Some(*l); }
+                }
+                if p.path.segments.len() >= 2 {
+                    let q = format!("{}::{name}", p.path.segments[p.path.segments.len() - 2].ident);
+                    if let Some(t) = self.inv.aliases.get(&q) { return self.type_layout(t, subst); }
                 }
                 match name.as_str() {
                     "Option" | "ManuallyDrop" | "UnsafeCell" | "MaybeUninit" => return self.type_layout(args.first()?, subst),
